@@ -310,7 +310,7 @@ func genNegative(t *rapid.T) ([]byte, string) {
 	case "bytes":
 		return rapid.SliceOfN(rapid.Byte(), 0, 120).Draw(t, "b"), kind
 	case "tagvalue":
-		lines := rapid.SliceOfN(rapid.SampledFrom([]string{"SPDXVersion: SPDX-2.3", "SPDXVersion: SPDX-2.2", "SPDXVersion: SPDX-3.0", "SPDXVersion:", "DataLicense: CC0-1.0", "\"SPDX-2.3\"", "'SPDX-2.2'", "SPDX-2.3", "{", "}", "", "bomFormat: CycloneDX"}), 0, 8).Draw(t, "lines")
+		lines := rapid.SliceOfN(rapid.SampledFrom([]string{"SPDXVersion: SPDX-2.3", "SPDXVersion: SPDX-2.2", "SPDXVersion: SPDX-3.0", "SPDXVersion: SPDX-2.1", "spdxVersion: \"SPDX-2.3\"", "spdxVersion: 'SPDX-2.2'", "SPDXVersion:", "DataLicense: CC0-1.0", "\"SPDX-2.3\"", "'SPDX-2.2'", "SPDX-2.3", "{", "}", "", "bomFormat: CycloneDX"}), 0, 8).Draw(t, "lines")
 		return []byte(strings.Join(lines, rapid.SampledFrom([]string{"\n", "\r\n"}).Draw(t, "eol"))), kind
 	case "trailing":
 		return append(enc(obj("t")), []byte(rapid.SampledFrom([]string{" garbage", "\n{\"bomFormat\":\"CycloneDX\",\"specVersion\":\"1.5\"}", "]", "\x00"}).Draw(t, "tail"))...), kind
@@ -319,7 +319,21 @@ func genNegative(t *rapid.T) ([]byte, string) {
 	}
 }
 
+// sniffResetInput: a well-formed tag-value header. Detecting it first puts the line sniffer's scratch state in a
+// known condition, so that a case is a pure function of its own sequence of inputs even if detection (wrongly)
+// keeps state between calls.
+const sniffResetInput = "SPDXVersion: SPDX-2.3\nDataLicense: CC0-1.0\n"
+
 func c06NegativeProperty(t *rapid.T) {
+	(&formats.Sniffer{}).SniffReader(strings.NewReader(sniffResetInput)) //nolint:errcheck
+	// a short history of detections: the verdict on each input must not depend on what was sniffed before
+	n := rapid.IntRange(1, 4).Draw(t, "history")
+	for i := 0; i < n; i++ {
+		c06NegativeOne(t)
+	}
+}
+
+func c06NegativeOne(t *rapid.T) {
 	hx.Eval()
 	data, kind := genNegative(t)
 	hx.Class("kind:" + kind)
